@@ -144,4 +144,25 @@ theorem c07_arrival_on_time {cfg : SMConfig} {s0 σ : State} (hst : Start orc in
   · omega
   · simp at hc
 
+/-- **Where a claimed job is taken.**  In every state the environment exposes, an AGV that has
+claimed a job is routed to the machine of that job's next idle operation, or – exactly when no
+operation of the job is idle any more – to the output buffer; and the job an AGV carries is the
+job it claimed. -/
+theorem c07_route_destination {ec : EnvCfg} {st : RewardStatic} {s0 σ : State} (hst : Start orc inst s0)
+    (h : Exposed orc inst ec st s0 σ) (t : TransportState) (ht : t ∈ σ.transports) (j : JobState) (hj : j ∈ σ.jobs)
+    (hc : t.job = some j.id) :
+    (∃ cur pick drop, t.loc = .route cur pick drop ∧
+      ((j.noOpIdle = true ∧ ∃ o, firstOutput inst = .ok o ∧ drop = .b o) ∨
+       (j.noOpIdle = false ∧ ∃ op, j.nextIdle? = some op ∧ drop = .m op.machine))) ∧
+    (t.st = .transit → t.buffer.store = [j.id]) := by
+  have hR := exposed_route hst h
+  have hA := exposed_agv hst h
+  refine ⟨hR.route t ht j.id hc j hj rfl, ?_⟩
+  intro hst'
+  obtain ⟨j', _, hstore⟩ := hA.holds t ht hst'
+  have := hR.transitOwn t ht hst' j'.id (by rw [hstore]; simp)
+  rw [hc] at this
+  simp at this
+  rw [hstore, this]
+
 end JSL
